@@ -275,3 +275,22 @@ def run_decode(case):
 
 
 HANDLERS['decode'] = run_decode
+
+
+def run_step_kind(case):
+    """one emulate_cycle; returns [0] when it completes, takes an architectural exception or reports a documented
+    not-implemented feature, [1, code] when it dies with a host error"""
+    import implrun
+    arm = build(case['state'])
+    try:
+        with contextlib.redirect_stdout(io.StringIO()):
+            arm.emulate_cycle()
+    except NotImplementedError:
+        return [0]
+    except Exception as e:  # noqa
+        enc = implrun.exn_enc(e)
+        return [0] if enc[0] == 2 else enc[:2]
+    return [0]
+
+
+HANDLERS['step_kind'] = run_step_kind
